@@ -232,7 +232,7 @@ def e_iterative_psf(inp):
     from photutils.psf import IterativePSFPhotometry
     model = inp.get('model') or _psf_model()
     thr = 10.0 * getattr(inp['data'], 'unit', 1)
-    ph = IterativePSFPhotometry(model, (7, 7), DAOStarFinder(10.0, 3.5), aperture_radius=4, maxiters=2)
+    ph = IterativePSFPhotometry(model, (7, 7), DAOStarFinder(thr, 3.5), aperture_radius=4, maxiters=2)
     res = ph(_sub(inp), mask=inp.get('mask'), error=inp.get('error'))
     return [res, ph.make_model_image(SHAPE, psf_shape=(9, 9))]
 
@@ -284,8 +284,12 @@ def e_isophote(inp):
 
 
 def e_calc_total_error(inp):
+    import astropy.units as u
     from photutils.utils import calc_total_error
-    return calc_total_error(inp['data'], inp.get('error'), inp.get('gain', 2.0))
+    d, e = inp['data'], inp.get('error')
+    if hasattr(d, 'unit'):      # count units are required: adu data with a gain in electron / adu
+        return calc_total_error(d.value * u.adu, e.value * u.adu, 2.0 * u.electron / u.adu)
+    return calc_total_error(d, e, inp.get('gain', 2.0))
 
 
 def e_utils(inp):
